@@ -238,6 +238,10 @@ def step (ss : Sess) (line : String) : Sess × String :=
         match CodeWrapper.parse t ⟨tn, td⟩ data with
         | .ok p => (ss, s!"ok bits={showNats p.bits} clean={showInts p.cleaned}")
         | .error e => (ss, "err " ++ e.name)
+      else if Manchester.supportedM t then
+        match Manchester.parseM t ⟨tn, td⟩ data with
+        | .ok p => (ss, s!"ok bits={showNats p.bits} clean={showInts p.cleaned}")
+        | .error e => (ss, "err " ++ e.name)
       else (ss, "unsupported")
     | _, _, _, _ => (ss, "bad-op")
   | ["inew", iid, name] =>
